@@ -51,6 +51,28 @@ class If(Node):
         self.cond, self.a, self.b = cond, a, b
 
 
+def _flatten_star_terms(args):
+    """f(*(X + (y, z))) -> f(*X, y, z) on terms - the loader does this on the syntax tree; the same spelling can appear only
+    after a local has been substituted (`t = X + (y,); f(*t)`).  Same reading as there: X is a tuple."""
+    def is_tuple(t):
+        return isinstance(t, tuple) and t and t[0] == 'tuple' and not any(isinstance(x, tuple) and x and x[0] == 'star' for x in t[1:])
+
+    def flat(t):
+        if is_tuple(t):
+            return list(t[1:])
+        if isinstance(t, tuple) and len(t) == 4 and t[0] == 'bin' and t[1] == 'Add' and (is_tuple(t[2]) or is_tuple(t[3])):
+            return flat(t[2]) + flat(t[3])
+        return [('star', t)]
+    out = []
+    for a in args:
+        if isinstance(a, tuple) and len(a) == 2 and a[0] == 'star' and isinstance(a[1], tuple) and len(a[1]) == 4 and \
+                a[1][0] == 'bin' and a[1][1] == 'Add' and (is_tuple(a[1][2]) or is_tuple(a[1][3])):
+            out.extend(flat(a[1]))
+        else:
+            out.append(a)
+    return out
+
+
 def _call_free(e):
     for n in ast.walk(e):
         if isinstance(n, ast.Call) and not (isinstance(n.func, ast.Name) and n.func.id in ('len', 'isinstance')):
@@ -864,6 +886,7 @@ class Exec(object):
                 args.append(self.msg(a, st, out))
             else:
                 args.append(self.ev(a, st, out))
+        args = _flatten_star_terms(args)
         kw = []
         for k in e.keywords:
             kw.append((k.arg or '**', self.ev(k.value, st, out)))
